@@ -245,7 +245,10 @@ func c06Gen() *rapid.Generator[c06Case] {
 		}
 		c.Massive = rapid.IntRange(0, 3).Draw(t, "massive") == 0
 		c.State = rapid.SampledFrom([]string{"empty", "empty", "missing", "populated"}).Draw(t, "state")
-		c.Target = rapid.SampledFrom([]string{"", "", "rel", "slash"}).Draw(t, "target")
+		c.Target = rapid.SampledFrom([]string{"", "", "rel", "slash", "short"}).Draw(t, "target")
+		if c.Target == "short" && c.State == "missing" {
+			c.Target = "rel" // the one-character name is a link to the target and needs it to exist
+		}
 		switch rapid.IntRange(0, 5).Draw(t, "scenario") {
 		case 0:
 			if c.State != "missing" {
@@ -258,6 +261,9 @@ func c06Gen() *rapid.Generator[c06Case] {
 			c.Refusal = rapid.SampledFrom([]string{"longname", "targetIsFile", "parentIsFile"}).Draw(t, "refusal")
 			c.LongAt = rapid.IntRange(0, f.Count()-1).Draw(t, "longAt")
 			c.State = "empty"
+			if c.Target == "short" {
+				c.Target = ""
+			}
 		}
 		return c
 	})
